@@ -2,7 +2,7 @@
 import ast
 from translate import HEADER, REPO, TranslateError
 
-ANSI_PINNED = (rb"[\x1B\x9B\x9D](\s)?" rb"(" rb"([78ME])" rb"|" rb"((\]\d).*?[\x07])" rb"|" rb"(\[.*?[@-~])" rb"|" rb"(\[.*?[0-9;]m)" rb")")
+ANSI_PINNED = (rb"\x1B(\s)?" rb"(" rb"([78ME])" rb"|" rb"((\]\d).*?[\x07])" rb"|" rb"(\[.*?[@-~])" rb"|" rb"(\[.*?[0-9;]m)" rb")")
 
 
 def _dataclass_defaults(rel, cls):
